@@ -941,6 +941,24 @@ func (w *World) execAppend(fr *Frame, st *State, c *ssa.CallCommon, s, t *Val) *
 		w.sc.assume(implies(st.cond, Term{fmt.Sprintf("(forall ((aj! Int)) (! (=> (and (<= (+ %s %s) aj!) (< aj! (+ %s %s))) (= (select %s aj!) (select %s (+ (- aj! (+ %s %s)) %s)))) :pattern ((select %s aj!))))",
 			tb.S, n1.S, tb.S, total.S, na.S, tArr.S, tb.S, n1.S, tOff.S, na.S), SBool}))
 	}
+	// inside a loop of the function under contract the loop frame relies on
+	// in-place appends writing only arrays allocated since function entry
+	if fr.top && fr.loops != nil && w.curBlock != nil {
+		for _, blocks := range fr.loops.body {
+			for _, b := range blocks {
+				if b == w.curBlock {
+					w.callOrd["loopappend"]++
+					props := []string{}
+					if fr.contract != nil {
+						props = fr.contract.Props
+					}
+					w.oblige("loop.write", fmt.Sprintf("loopwrite.append%d.fresh-array", w.callOrd["loopappend"]), and(st.cond, inplace, not(eq(n2, intLit(0)))), lt(w.hget(fr.entry, allocKey), sarr(s.T)), false, props)
+					goto done
+				}
+			}
+		}
+	done:
+	}
 	w.hset(st, key, store(E, target, na))
 	res := mk(SSlice, "mkSlice", target, tb, total, ite(inplace, scap(s.T), newCap))
 	// append(s) with nothing to add returns s itself
